@@ -734,10 +734,854 @@ pub fn strat(_t: Tier) -> BoxedStrategy<Case> {
         .boxed()
 }
 
+// ---------------------------------------------------------------------------
+// large-scale sub-checks (C12/large-*): every size parameter of the indexed reader is pushed across the
+// threshold ladder 255..257, 511..513, ... 2^20+1 (oracles::scale::c111213), offsets and start positions
+// also across 2^31, 2^32 and 2^33 (through a file that exists only as a function of the offset).
+//
+// A case holds parameters only.  The scaled parameter is `what`:
+//   Width    line width of one record            Len      sequence length
+//   Fetch    length of one fetched interval      Records  number of records in the index
+//   Offset   file offset of the record           Start    start position of the interval
+//   Jumps    distance between consecutive fetches on one reader (forward and backward)
+//   FileHist histories on ONE path (IndexedReader::from_file, Index::from_file / with_fasta_file): long, short, medium
+//   Cut      offset at which the file is cut behind the same index
+// The oracle is `base(seed, position)`: the expected slice is recomputed for every query, the file is laid
+// out by the harness (`Lay`), the .fai is computed from that layout.
+pub mod large {
+    use super::*;
+    use crate::oracles::scale::c111213::{band_label, intern, ladder, publish, Sm, TmpFiles, VirtualFile, CENTRES};
+    use std::io::{Cursor, Read, Seek};
+
+    #[derive(Serialize, Deserialize, Debug, Clone, Copy, PartialEq, Eq)]
+    pub enum What {
+        Width,
+        Len,
+        Fetch,
+        Records,
+        Offset,
+        Start,
+        Jumps,
+        FileHist,
+        Cut,
+    }
+
+    #[derive(Serialize, Deserialize, Debug, Clone, Copy, PartialEq, Eq)]
+    pub enum Src {
+        /// file computed on demand from the offset; read() delivers whatever the buffer takes
+        Virtual,
+        /// the same, read() delivers at most `n` bytes (the scaled value) at a time
+        VirtualChunked,
+        /// `Cursor<Vec<u8>>`: unfragmented
+        Cursor,
+        /// the chunked double with the schedule [n, 1, 8192]
+        Chunked,
+        /// a file on disk, opened with `IndexedReader::from_file` (index read from `<path>.fai`)
+        File,
+    }
+
+    #[derive(Serialize, Deserialize, Debug, Clone)]
+    pub struct LCase {
+        pub what: What,
+        pub n: u64,
+        pub aux: usize,
+        pub seed: u64,
+        pub crlf: bool,
+        pub final_newline: bool,
+        pub src: Src,
+    }
+
+    // ---- layout
+
+    struct RL {
+        name: String,
+        /// the header line including its terminator
+        header: Vec<u8>,
+        /// file offset of the '>'
+        start: u64,
+        /// file offset of the first base
+        offset: u64,
+        len: u64,
+        width: u64,
+        seed: u32,
+    }
+
+    struct Lay {
+        recs: Vec<RL>,
+        term: u64,
+        crlf: bool,
+        /// length of the file in bytes
+        len: u64,
+    }
+
+    /// (name, sequence length >= 1, line width >= 1, seed)
+    type Spec = (String, u64, u64, u32);
+
+    impl Lay {
+        fn build(specs: Vec<Spec>, crlf: bool, final_newline: bool) -> Lay {
+            let term = if crlf { 2 } else { 1 };
+            let nl: &[u8] = if crlf { b"\r\n" } else { b"\n" };
+            let mut recs = Vec::with_capacity(specs.len());
+            let mut pos = 0u64;
+            for (name, len, width, seed) in specs {
+                let mut header = vec![b'>'];
+                header.extend_from_slice(name.as_bytes());
+                header.extend_from_slice(nl);
+                let start = pos;
+                let offset = pos + header.len() as u64;
+                let lines = (len + width - 1) / width;
+                pos = offset + len + lines * term;
+                recs.push(RL { name, header, start, offset, len, width, seed });
+            }
+            if !final_newline {
+                pos -= term;
+            }
+            Lay { recs, term, crlf, len: pos }
+        }
+
+        /// file offset of base i of record r
+        fn off(&self, r: usize, i: u64) -> u64 {
+            let e = &self.recs[r];
+            e.offset + (i / e.width) * (e.width + self.term) + i % e.width
+        }
+
+        fn term_byte(&self, k: u64) -> u8 {
+            if self.crlf && k == 0 {
+                b'\r'
+            } else {
+                b'\n'
+            }
+        }
+
+        fn byte_at(&self, p: u64) -> u8 {
+            // last record starting at or before p
+            let r = self.recs.partition_point(|e| e.start <= p) - 1;
+            let e = &self.recs[r];
+            if p < e.offset {
+                return e.header[(p - e.start) as usize];
+            }
+            let rel = p - e.offset;
+            let lb = e.width + self.term;
+            let line = rel / lb;
+            let col = rel % lb;
+            let ll = (e.len - line * e.width).min(e.width);
+            if col < ll {
+                base(e.seed, (line * e.width + col) as usize)
+            } else {
+                self.term_byte(col - ll)
+            }
+        }
+
+        /// the whole file, written sequentially (second, independent rendering of the same layout)
+        fn materialize(&self) -> Vec<u8> {
+            let nl: &[u8] = if self.crlf { b"\r\n" } else { b"\n" };
+            let mut out = Vec::with_capacity(self.len as usize + 2);
+            for e in &self.recs {
+                out.extend_from_slice(&e.header);
+                let mut i = 0u64;
+                while i < e.len {
+                    let j = (i + e.width).min(e.len);
+                    out.extend((i..j).map(|k| base(e.seed, k as usize)));
+                    out.extend_from_slice(nl);
+                    i = j;
+                }
+            }
+            out.truncate(self.len as usize);
+            out
+        }
+
+        fn fai(&self) -> Vec<u8> {
+            let mut s = String::new();
+            for e in &self.recs {
+                s.push_str(&format!("{}\t{}\t{}\t{}\t{}\n", e.name, e.len, e.offset, e.width, e.width + self.term));
+            }
+            s.into_bytes()
+        }
+
+        fn describe(&self, r: usize) -> String {
+            let e = &self.recs[r];
+            format!("record {} {:?} of {} (len {} offset {} line_bases {} line_bytes {}; file of {} bytes, {})", r, e.name, self.recs.len(), e.len, e.offset, e.width, e.width + self.term, self.len, if self.crlf { "CRLF" } else { "LF" })
+        }
+    }
+
+    // ---- queries
+
+    #[derive(Debug, Clone)]
+    struct Q {
+        rec: usize,
+        start: u64,
+        stop: u64,
+        /// 0 read(), 1 read_iter() to the end, 2 part of read_iter() then read(), 3 part of read_iter() then read_iter()
+        mode: u8,
+        by_name: bool,
+    }
+
+    fn exp(lay: &Lay, q: &Q, i: u64) -> u8 {
+        base(lay.recs[q.rec].seed, (q.start + i) as usize)
+    }
+
+    struct Stats {
+        queries: u64,
+        bytes: u64,
+        max_len: u64,
+        iter_full: bool,
+        partial: bool,
+        multi_line: bool,
+        within_line_long: bool,
+        cut_beyond: u64,
+        cut_before_ok: u64,
+        back: u64,
+        fwd: u64,
+    }
+
+    fn excerpt_l(b: &[u8]) -> String {
+        excerpt(b)
+    }
+
+    /// one query on the reader.  `cut`: the file ends at that offset (the index does not know).
+    fn run_q<R: Read + Seek>(rd: &mut IndexedReader<R>, lay: &Lay, q: &Q, buf: &mut Vec<u8>, cut: Option<u64>, st: &mut Stats, case: &str) -> Result<(), Stop> {
+        let e = &lay.recs[q.rec];
+        let n = q.stop - q.start;
+        let ctx = || format!("{}: fetch {}..{} ({} bases, mode {}, {}) of {}{}", case, q.start, q.stop, n, q.mode, if q.by_name { "by name" } else { "by rid" }, lay.describe(q.rec), cut.map(|k| format!(" FILE CUT at offset {}", k)).unwrap_or_default());
+        let res = if q.by_name {
+            if q.start == 0 && q.stop == e.len && q.mode % 2 == 0 {
+                rd.fetch_all(&e.name)
+            } else {
+                rd.fetch(&e.name, q.start, q.stop)
+            }
+        } else if q.start == 0 && q.stop == e.len && q.mode % 2 == 0 {
+            rd.fetch_all_by_rid(q.rec)
+        } else {
+            rd.fetch_by_rid(q.rec, q.start, q.stop)
+        };
+        ensure!(res.is_ok(), "{}: the fetch of a valid interval failed: {:?}", ctx(), res);
+        // first base (index within the interval) that lies at or behind the cut
+        let lost_from: Option<u64> = cut.and_then(|k| {
+            if n > 0 && lay.off(q.rec, q.stop - 1) >= k {
+                // smallest i with off(start+i) >= k (off is monotone)
+                let (mut lo, mut hi) = (0u64, n - 1);
+                while lo < hi {
+                    let mid = (lo + hi) / 2;
+                    if lay.off(q.rec, q.start + mid) >= k {
+                        hi = mid;
+                    } else {
+                        lo = mid + 1;
+                    }
+                }
+                Some(lo)
+            } else {
+                None
+            }
+        });
+        let iter_pass = |rd: &mut IndexedReader<R>, limit: u64, st: &mut Stats| -> Result<(), Stop> {
+            let mut it = match rd.read_iter() {
+                Ok(it) => it,
+                Err(e) => {
+                    ensure!(cut.is_some(), "{}: read_iter() failed: {:?}", ctx(), e);
+                    return Ok(());
+                }
+            };
+            let mut i = 0u64;
+            loop {
+                if i >= limit {
+                    break;
+                }
+                ensure!(i <= n + 8, "{}: read_iter() does not terminate: more than {} items", ctx(), n + 8);
+                match it.next() {
+                    None => {
+                        ensure!(i == n, "{}: read_iter() ended after {} of {} bases without an error", ctx(), i, n);
+                        st.iter_full = true;
+                        if cut.is_some() {
+                            st.cut_before_ok += 1;
+                        }
+                        break;
+                    }
+                    Some(Err(e)) => {
+                        ensure!(cut.is_some(), "{}: read_iter() item #{} is an error: {:?}", ctx(), i, e);
+                        break;
+                    }
+                    Some(Ok(x)) => {
+                        ensure!(i < n, "{}: read_iter() delivers more than the {} requested bases", ctx(), n);
+                        ensure!(lost_from.map_or(true, |l| i < l), "{}: read_iter() delivered base #{} of the interval although the file ends before it", ctx(), i);
+                        let want = exp(lay, q, i);
+                        ensure!(x == want, "{}: read_iter() item #{} is {:?}, the sequence has {:?} there", ctx(), i, x as char, want as char);
+                    }
+                }
+                i += 1;
+            }
+            Ok(())
+        };
+        let read_pass = |rd: &mut IndexedReader<R>, buf: &mut Vec<u8>, st: &mut Stats| -> Result<(), Stop> {
+            let res = rd.read(buf);
+            match res {
+                Err(e) => ensure!(cut.is_some(), "{}: read() failed: {:?}", ctx(), e),
+                Ok(()) => {
+                    ensure!(lost_from.is_none(), "{}: read() returned Ok with {} although the file ends before base #{} of the interval", ctx(), excerpt_l(buf), lost_from.unwrap_or(0));
+                    let ok = buf.len() as u64 == n && buf.iter().enumerate().all(|(i, &b)| b == exp(lay, q, i as u64));
+                    if !ok {
+                        let want: Vec<u8> = (0..n.min(1 << 22)).map(|i| exp(lay, q, i)).collect();
+                        fail!("{}: read() returned {} bases {} but the slice has {} bases {} (first difference at {})", ctx(), buf.len(), excerpt_l(buf), n, excerpt_l(&want), first_diff(buf, &want));
+                    }
+                    if cut.is_some() {
+                        st.cut_before_ok += 1;
+                    }
+                }
+            }
+            Ok(())
+        };
+        match q.mode % 4 {
+            0 => read_pass(rd, buf, st)?,
+            1 => iter_pass(rd, u64::MAX, st)?,
+            2 => {
+                iter_pass(rd, n / 2 + 1, st)?;
+                st.partial = true;
+                read_pass(rd, buf, st)?;
+            }
+            _ => {
+                iter_pass(rd, (n / 3).min(700), st)?;
+                st.partial = true;
+                iter_pass(rd, u64::MAX, st)?;
+            }
+        }
+        st.queries += 1;
+        st.bytes += n;
+        st.max_len = st.max_len.max(n);
+        if n > 0 {
+            let w = e.width;
+            st.multi_line |= (q.stop - 1) / w > q.start / w;
+            st.within_line_long |= (q.stop - 1) / w == q.start / w && n > 512;
+            if lost_from.is_some() {
+                st.cut_beyond += 1;
+            }
+        }
+        Ok(())
+    }
+
+    /// positions of interest of a record: ends, ladder values, line boundaries, a few seeded ones
+    fn positions(len: u64, w: u64, g: &mut Sm) -> Vec<u64> {
+        let mut p: Vec<u64> = vec![0, 1, len.saturating_sub(1), len];
+        for &c in CENTRES {
+            p.extend([c - 1, c, c + 1]);
+        }
+        let lines = (len + w - 1) / w;
+        for k in [1, 2, lines / 2, lines.saturating_sub(1)] {
+            p.extend([(k * w).saturating_sub(1), k * w, k * w + 1]);
+        }
+        for _ in 0..8 {
+            p.push(g.below(len + 1));
+        }
+        p.retain(|&x| x <= len);
+        p.sort_unstable();
+        p.dedup();
+        p
+    }
+
+    /// the standard battery on record `rec`: short intervals at every position of interest, one long
+    /// interval per ladder value, the whole record; `budget` bounds the sum of the long lengths
+    fn battery(lay: &Lay, rec: usize, g: &mut Sm, budget: u64) -> Vec<Q> {
+        let e = &lay.recs[rec];
+        let (len, w) = (e.len, e.width);
+        let mut qs = Vec::new();
+        let mut k = g.below(64) as usize;
+        for &p in &positions(len, w, g) {
+            // to the next line end -1 / 0 / +1, or a handful of bases
+            let le = (p / w + 1) * w;
+            let d = [0, 1, 2, 5, 17, 300, w + 1, 2 * w + 3, 3 * w + 4, le - p, (le - p).saturating_sub(1), le - p + 1][k % 12].min(600);
+            qs.push(Q { rec, start: p, stop: (p + d).min(len), mode: (k / 3 % 4) as u8, by_name: k % 2 == 0 });
+            k += 1;
+        }
+        let mut spent = 0u64;
+        let mut longs: Vec<u64> = ladder(1 << 20);
+        longs.push(len);
+        for (j, &l) in longs.iter().enumerate() {
+            if l > len || spent + l > budget {
+                continue;
+            }
+            spent += l;
+            let room = len - l;
+            let start = [0, 1, w.saturating_sub(1), w, w + 1, room, room / 2, g.below(room + 1)][(j + k) % 8].min(room);
+            qs.push(Q { rec, start, stop: start + l, mode: ((j + j / 3 + k) % 4) as u8, by_name: j % 2 == 1 });
+        }
+        // Fisher-Yates: consecutive fetches jump forward and backward by every size class
+        for i in (1..qs.len()).rev() {
+            let j = g.below(i as u64 + 1) as usize;
+            qs.swap(i, j);
+        }
+        qs
+    }
+
+    fn misuse<R: Read + Seek>(rd: &mut IndexedReader<R>, lay: &Lay, rec: usize, buf: &mut Vec<u8>, case: &str) -> Result<(), Stop> {
+        let e = &lay.recs[rec];
+        let nrec = lay.recs.len();
+        let r = rd.fetch_by_rid(nrec, 0, 1);
+        ensure!(r.is_err(), "{}: fetch_by_rid({}) succeeded, the index has {} records", case, nrec, nrec);
+        let r = rd.fetch_all_by_rid(nrec + 65_536);
+        ensure!(r.is_err(), "{}: fetch_all_by_rid({}) succeeded, the index has {} records", case, nrec + 65_536, nrec);
+        let unknown = format!("{}?", e.name);
+        let r = rd.fetch(&unknown, 0, 1);
+        ensure!(r.is_err(), "{}: fetch of the unknown name {:?} succeeded", case, unknown);
+        for (start, stop) in [(0, e.len + 1), (e.len, e.len + 256), (e.len.min(1), 0), (e.len + 1, e.len + 1)] {
+            if start == stop && start <= e.len {
+                continue;
+            }
+            if rd.fetch_by_rid(rec, start, stop).is_ok() {
+                let r = rd.read(buf);
+                ensure!(r.is_err(), "{}: the invalid interval {}..{} of {} was accepted by fetch and by read(), which returned {}", case, start, stop, lay.describe(rec), excerpt_l(buf));
+                if rd.fetch(&e.name, start, stop).is_ok() {
+                    let failed = match rd.read_iter() {
+                        Err(_) => true,
+                        Ok(mut it) => matches!(it.next(), Some(Err(_))),
+                    };
+                    ensure!(failed, "{}: the invalid interval {}..{} of {} was accepted by fetch and by read_iter()", case, start, stop, lay.describe(rec));
+                }
+            }
+        }
+        Ok(())
+    }
+
+    /// run `qs` (and the misuse block) on a reader over `lay` obtained as `src` says
+    #[allow(clippy::too_many_arguments)]
+    fn drive(c: &LCase, lay: &Lay, qs: &[Q], cut: Option<u64>, tmp: &mut TmpFiles, st: &mut Stats, case: &str, misuse_on: Option<usize>) -> Result<(), Stop> {
+        let flen = cut.unwrap_or(lay.len).min(lay.len);
+        let fai = lay.fai();
+        let mut buf: Vec<u8> = b"stale".to_vec();
+        macro_rules! go {
+            ($rd:expr) => {{
+                let mut rd = $rd;
+                let mut last: Option<u64> = None;
+                for q in qs {
+                    if let Some(l) = last {
+                        if q.start < l {
+                            st.back += 1;
+                        } else {
+                            st.fwd += 1;
+                        }
+                    }
+                    last = Some(q.start);
+                    run_q(&mut rd, lay, q, &mut buf, cut, st, case)?;
+                }
+                if let Some(r) = misuse_on {
+                    misuse(&mut rd, lay, r, &mut buf, case)?;
+                    // and the reader still serves a valid interval afterwards
+                    let e = &lay.recs[r];
+                    let q = Q { rec: r, start: e.len / 2, stop: e.len.min(e.len / 2 + 300), mode: 0, by_name: true };
+                    run_q(&mut rd, lay, &q, &mut buf, cut, st, case)?;
+                }
+            }};
+        }
+        let via_index = c.seed % 2 == 0;
+        macro_rules! open {
+            ($src:expr) => {{
+                let the_src = $src;
+                if via_index {
+                    match Index::new(&fai[..]) {
+                        Ok(ix) => {
+                            check_sequences(&ix, lay, case)?;
+                            IndexedReader::with_index(the_src, ix)
+                        }
+                        Err(e) => fail!("{}: Index::new rejects the .fai of {} records: {:?}", case, lay.recs.len(), e),
+                    }
+                } else {
+                    match IndexedReader::new(the_src, &fai[..]) {
+                        Ok(r) => r,
+                        Err(e) => fail!("{}: IndexedReader::new rejects the .fai of {} records: {:?}", case, lay.recs.len(), e),
+                    }
+                }
+            }};
+        }
+        let materialize_ok = lay.len <= (24 << 20);
+        let src = match c.src {
+            Src::Cursor | Src::Chunked | Src::File if !materialize_ok => Src::Virtual,
+            s => s,
+        };
+        match src {
+            Src::Virtual => go!(open!(VirtualFile::new(flen, usize::MAX, |p| lay.byte_at(p)))),
+            Src::VirtualChunked => go!(open!(VirtualFile::new(flen, (c.n.max(1)).min(1 << 30) as usize, |p| lay.byte_at(p)))),
+            Src::Cursor | Src::Chunked | Src::File => {
+                let mut data = lay.materialize();
+                ensure!(data.len() as u64 == lay.len, "harness: the materialised file has {} bytes, the layout says {}", data.len(), lay.len);
+                let mut g = Sm::new(c.seed, 0xb17e);
+                for _ in 0..64 {
+                    let p = g.below(lay.len);
+                    ensure!(data[p as usize] == lay.byte_at(p), "harness: the two renderings of the layout differ at offset {}", p);
+                }
+                data.truncate(flen as usize);
+                match src {
+                    Src::Cursor => go!(open!(Cursor::new(data))),
+                    Src::Chunked => go!(open!(ChunkedReader::whole(Rc::new(data), &[c.n.clamp(1, u32::MAX as u64) as u32, 1, 8192], None))),
+                    _ => {
+                        let path = tmp.path("idx.fa");
+                        let fai_path = tmp.path("idx.fa.fai");
+                        std::fs::write(&path, &data).and_then(|_| std::fs::write(&fai_path, &fai)).map_err(|e| Stop::Fail(format!("harness: cannot write {:?}: {:?}", path, e)))?;
+                        match IndexedReader::from_file(&path) {
+                            Ok(rd) => {
+                                check_sequences(&rd.index, lay, case)?;
+                                go!(rd)
+                            }
+                            Err(e) => fail!("{}: IndexedReader::from_file({:?}) failed although the file and its .fai exist: {:?}", case, path, e),
+                        }
+                    }
+                }
+            }
+        }
+        Ok(())
+    }
+
+    fn check_sequences(ix: &Index, lay: &Lay, case: &str) -> Result<(), Stop> {
+        let got = ix.sequences();
+        ensure!(got.len() == lay.recs.len(), "{}: Index::sequences() lists {} records, the .fai has {}", case, got.len(), lay.recs.len());
+        for (i, (s, e)) in got.iter().zip(&lay.recs).enumerate() {
+            ensure!(s.name == e.name && s.len == e.len, "{}: Index::sequences()[{}] is ({:?}, {}), the .fai line says ({:?}, {})", case, i, s.name, s.len, e.name, e.len);
+        }
+        Ok(())
+    }
+
+    fn what_name(w: What) -> &'static str {
+        match w {
+            What::Width => "line width",
+            What::Len => "sequence length",
+            What::Fetch => "fetch length",
+            What::Records => "number of index records",
+            What::Offset => "record offset",
+            What::Start => "start position",
+            What::Jumps => "jump between consecutive fetches",
+            What::FileHist => "file history: length of the long sequence",
+            What::Cut => "cut offset",
+        }
+    }
+
+    fn small(name: &str, seed: u64) -> Spec {
+        (name.to_string(), 50 + seed % 40, 7, (seed >> 8) as u32)
+    }
+
+    pub fn check_large(c: &LCase) -> R {
+        let _published = publish(c);
+        ensure!(c.n >= 1, "harness: n = 0");
+        let mut tmp = TmpFiles::new("C12").map_err(|e| Stop::Fail(format!("harness: cannot create the temporary directory: {:?}", e)))?;
+        let case = format!("{:?}", c);
+        let n = c.n;
+        let mut g = Sm::new(c.seed, 0xc12);
+        let sd = |k: u64| (crate::oracles::scale::c111213::mix(c.seed ^ k) >> 16) as u32;
+        let mut st = Stats { queries: 0, bytes: 0, max_len: 0, iter_full: false, partial: false, multi_line: false, within_line_long: false, cut_beyond: 0, cut_before_ok: 0, back: 0, fwd: 0 };
+        let budget: u64 = 5 << 20;
+        let mut pass = Pass::new(n >= 255);
+        pass.add(band_label(what_name(c.what), n));
+        pass.add(intern(format!("scaled: {}", what_name(c.what))));
+        match c.what {
+            What::Width | What::Len | What::Fetch => {
+                let (len, w) = match c.what {
+                    What::Width => ([2 * n + n / 2 + 3, 3 * n, n, n + 1][c.aux % 4], n),
+                    What::Len => (n, [60, 1, 7, 513, 8191, 70, n][c.aux % 7]),
+                    _ => (n + g.below(1000) + g.below(2) * n, [n + 7, 60, n, 1, 513, 8192][c.aux % 6]),
+                };
+                let lay = Lay::build(vec![small("pre", c.seed), ("big".into(), len, w.max(1), sd(1)), small("post", c.seed ^ 9)], c.crlf, c.final_newline);
+                let mut qs = battery(&lay, 1, &mut g, budget);
+                if c.what == What::Fetch {
+                    // the scaled interval length itself, at several alignments, through every mode
+                    let room = len - n;
+                    for (j, start) in [0, 1, 3, room, room / 2, w.saturating_sub(1)].into_iter().enumerate() {
+                        let start = start.min(room); // the interval start..start+n stays inside the record
+                        qs.insert(g.below(qs.len() as u64 + 1) as usize, Q { rec: 1, start, stop: start + n, mode: (j % 4) as u8, by_name: j % 2 == 0 });
+                    }
+                }
+                qs.push(Q { rec: 0, start: 3, stop: 40, mode: 1, by_name: true });
+                qs.push(Q { rec: 2, start: 0, stop: lay.recs[2].len, mode: 0, by_name: false });
+                drive(c, &lay, &qs, None, &mut tmp, &mut st, &case, Some(1))?;
+                pass.add_if(lay.recs[1].len <= lay.recs[1].width, "single-line record");
+            }
+            What::Records => {
+                let nr = n as usize;
+                let specs: Vec<Spec> = (0..nr)
+                    .map(|i| {
+                        let mut h = Sm::new(c.seed, i as u64);
+                        (format!("s{}", i), 1 + h.below(30), 1 + h.below(10), h.next() as u32)
+                    })
+                    .collect();
+                let lay = Lay::build(specs, c.crlf, c.final_newline);
+                let mut ids: Vec<usize> = vec![0, nr - 1];
+                for &v in &ladder(1 << 20) {
+                    if (v as usize) < nr {
+                        ids.push(v as usize);
+                    }
+                }
+                for _ in 0..24 {
+                    ids.push(g.below(n) as usize);
+                }
+                let mut qs = Vec::new();
+                for (k, &r) in ids.iter().enumerate() {
+                    let len = lay.recs[r].len;
+                    qs.push(Q { rec: r, start: 0, stop: len, mode: (k % 2 * 2) as u8, by_name: k % 3 != 0 });
+                    let a = g.below(len + 1);
+                    let b = a + g.below(len - a + 1);
+                    qs.push(Q { rec: r, start: a, stop: b, mode: (k % 4) as u8, by_name: k % 3 == 0 });
+                }
+                for i in (1..qs.len()).rev() {
+                    let j = g.below(i as u64 + 1) as usize;
+                    qs.swap(i, j);
+                }
+                drive(c, &lay, &qs, None, &mut tmp, &mut st, &case, Some(nr - 1))?;
+            }
+            What::Offset | What::Start => {
+                // the record of interest lies behind a single-line filler record so that its offset is exactly n,
+                // resp. the interval starts at position n of a record that is long enough
+                let term = if c.crlf { 2 } else { 1 };
+                let w = [60, 1, 8192, 511, 70_001][c.aux % 5];
+                let lay = if c.what == What::Offset {
+                    // ">f" nl  <filler> nl  ">big" nl  => offset = 2 + term + filler + term + 4 + term
+                    let fixed = 6 + 3 * term;
+                    ensure!(n > fixed, "harness: offset {} too small", n);
+                    let filler = n - fixed;
+                    Lay::build(vec![("f".into(), filler, filler, sd(2)), ("big".into(), 5000 + g.below(5000), w, sd(3)), small("post", c.seed)], c.crlf, c.final_newline)
+                } else {
+                    Lay::build(vec![small("pre", c.seed), ("big".into(), n + 3000 + g.below(5000), w, sd(3)), small("post", c.seed)], c.crlf, c.final_newline)
+                };
+                let mut qs: Vec<Q> = Vec::new();
+                if c.what == What::Offset {
+                    ensure!(lay.recs[1].offset == n, "harness: the record offset is {} instead of {}", lay.recs[1].offset, n);
+                    qs = battery(&lay, 1, &mut g, budget);
+                    // the end of the filler, just in front of the offset
+                    let fl = lay.recs[0].len;
+                    qs.push(Q { rec: 0, start: fl.saturating_sub(300), stop: fl, mode: 1, by_name: true });
+                    qs.push(Q { rec: 2, start: 0, stop: lay.recs[2].len, mode: 0, by_name: true });
+                } else {
+                    let len = lay.recs[1].len;
+                    for (k, d) in [0u64, 1, 2, 100, 700, 3 * w + 1, w - 1, w, w + 1].into_iter().enumerate() {
+                        for (j, s) in [n - 1, n, n + 1].into_iter().enumerate() {
+                            qs.push(Q { rec: 1, start: s, stop: (s + d.min(30_000)).min(len), mode: ((k + j) % 4) as u8, by_name: (k + j) % 2 == 0 });
+                        }
+                    }
+                    qs.push(Q { rec: 1, start: 0, stop: 200, mode: 0, by_name: true });
+                    qs.push(Q { rec: 2, start: 0, stop: lay.recs[2].len, mode: 1, by_name: true });
+                    for i in (1..qs.len()).rev() {
+                        let j = g.below(i as u64 + 1) as usize;
+                        qs.swap(i, j);
+                    }
+                }
+                drive(c, &lay, &qs, None, &mut tmp, &mut st, &case, Some(1))?;
+            }
+            What::Jumps => {
+                let w = [60, 1, 8192, 513, 4096][c.aux % 5];
+                let lay = Lay::build(vec![small("pre", c.seed), ("big".into(), 2 * n + 3000, w, sd(4)), small("post", c.seed)], c.crlf, c.final_newline);
+                let mut qs = Vec::new();
+                let mut p = 500u64;
+                for k in 0..12u64 {
+                    let d = 1 + g.below(600);
+                    qs.push(Q { rec: 1, start: p, stop: p + d, mode: (k % 4) as u8, by_name: k % 2 == 0 });
+                    // forward by n (+-1), backward by n (+-1), alternating
+                    let j = n + k % 3 - 1;
+                    p = if k % 2 == 0 { p + j } else { p - j.min(p) };
+                }
+                drive(c, &lay, &qs, None, &mut tmp, &mut st, &case, None)?;
+                pass.add_if(st.back > 0 && st.fwd > 0, "forward and backward jumps on one reader");
+            }
+            What::FileHist => {
+                // one path, three generations of the file and of its index
+                let path = tmp.path("idx.fa");
+                let fai_path = tmp.path("idx.fa.fai");
+                for (step, (len, w)) in [(n, [60u64, 1, 513, n][c.aux % 4]), (n / 3 + 1, 70), (n / 2 + 5, [61u64, 8192][c.aux % 2]), (3, 2)].into_iter().enumerate() {
+                    let lay = Lay::build(vec![small("pre", c.seed ^ step as u64), (format!("gen{}", step), len, w.max(1), sd(10 + step as u64)), small("post", c.seed)], c.crlf, c.final_newline);
+                    let qs = battery(&lay, 1, &mut g, budget / 2);
+                    let cc = LCase { src: Src::File, ..c.clone() };
+                    let scase = format!("{} step {} of the history on one path (sequence length {}, width {})", case, step, len, w);
+                    drive(&cc, &lay, &qs, None, &mut tmp, &mut st, &scase, Some(1))?;
+                    // the index-only entry points see the current generation as well
+                    for (what, ix) in [("Index::from_file", Index::from_file(&fai_path)), ("Index::with_fasta_file", Index::with_fasta_file(&path))] {
+                        match ix {
+                            Ok(ix) => {
+                                check_sequences(&ix, &lay, &format!("{} {}", scase, what))?;
+                                match std::fs::File::open(&path) {
+                                    Ok(f) => {
+                                        let mut rd = IndexedReader::with_index(f, ix);
+                                        let mut buf = Vec::new();
+                                        let q = Q { rec: 1, start: len / 2, stop: len, mode: 0, by_name: true };
+                                        run_q(&mut rd, &lay, &q, &mut buf, None, &mut st, &format!("{} {} + with_index(File)", scase, what))?;
+                                    }
+                                    Err(e) => fail!("harness: cannot open {:?}: {:?}", path, e),
+                                }
+                            }
+                            Err(e) => fail!("{}: {} failed on an existing index file: {:?}", scase, what, e),
+                        }
+                    }
+                }
+                pass.add("file history: long, short, medium, tiny on one path");
+                pass.add("Index::from_file, Index::with_fasta_file, with_index(File)");
+            }
+            What::Cut => {
+                // the cut lies inside the second record
+                let w = [60, 1, 513, 8192, 7][c.aux % 5];
+                let lay = Lay::build(vec![small("pre", c.seed), ("big".into(), n + 2000 + g.below(3000), w, sd(5)), small("post", c.seed)], c.crlf, c.final_newline);
+                ensure!(lay.recs[1].offset < n && n < lay.len, "harness: cut {} outside the big record", n);
+                // first base at or behind the cut
+                let e = &lay.recs[1];
+                let (mut lo, mut hi) = (0u64, e.len - 1);
+                while lo < hi {
+                    let mid = (lo + hi) / 2;
+                    if lay.off(1, mid) >= n {
+                        hi = mid;
+                    } else {
+                        lo = mid + 1;
+                    }
+                }
+                let b = lo;
+                let mut qs = Vec::new();
+                let mut k = 0usize;
+                for s in [0, b.saturating_sub(700), b.saturating_sub(w + 1), b.saturating_sub(1), b, b + 1, b + w] {
+                    for t in [b.saturating_sub(1), b, b + 1, b + 2, b + 600, e.len] {
+                        if s <= t && t <= e.len && (t - s <= 4096 || k % 5 == 0) {
+                            qs.push(Q { rec: 1, start: s, stop: t, mode: (k % 4) as u8, by_name: k % 2 == 0 });
+                        }
+                        k += 1;
+                    }
+                }
+                qs.push(Q { rec: 0, start: 0, stop: lay.recs[0].len, mode: 0, by_name: true });
+                qs.push(Q { rec: 2, start: 0, stop: 5, mode: 1, by_name: true });
+                for i in (1..qs.len()).rev() {
+                    let j = g.below(i as u64 + 1) as usize;
+                    qs.swap(i, j);
+                }
+                drive(c, &lay, &qs, Some(n), &mut tmp, &mut st, &case, None)?;
+                pass.add_if(st.cut_beyond > 0, "cut file: requested base behind the cut");
+                pass.add_if(st.cut_before_ok > 0, "cut file: interval before the cut read correctly");
+            }
+        }
+        pass.add(match c.src {
+            Src::Virtual => "source: computed file",
+            Src::VirtualChunked => "source: computed file, read() of at most n bytes",
+            Src::Cursor => "source: Cursor (unfragmented)",
+            Src::Chunked => "source: chunked double",
+            Src::File => "source: file on disk (IndexedReader::from_file)",
+        });
+        pass.add_if(c.crlf, "CRLF");
+        pass.add_if(!c.final_newline, "last terminator missing");
+        pass.add_if(st.iter_full, "iterator consumed completely");
+        pass.add_if(st.partial, "partially consumed iterator, then another read");
+        pass.add_if(st.multi_line, "fetch crossing line ends");
+        pass.add_if(st.within_line_long, "fetch of more than 512 bases within one line");
+        pass.add_if(st.max_len > 8192, "fetch longer than 8 KiB");
+        pass.add_if(st.max_len > 65_536, "fetch longer than 64 KiB");
+        pass.add_if(st.back > 0 && st.fwd > 0, "forward and backward fetches on one reader");
+        Ok(pass)
+    }
+
+    // ---- enumeration and random strategy
+
+    const BIG: &[u64] = &[(1 << 31) - 1, 1 << 31, (1 << 31) + 1, (1 << 32) - 1, 1 << 32, (1 << 32) + 1, (1 << 33) + 5, 1 << 40];
+
+    fn top(what: What, t: Tier) -> u64 {
+        match (what, t) {
+            (What::Records, Tier::Quick) => 131_072,
+            _ => 1 << 20,
+        }
+    }
+
+    fn grid(whats: &[What], t: Tier) -> Vec<LCase> {
+        let mut out = Vec::new();
+        let mut k = 0usize;
+        for seed in 1..=6u64 {
+            for &what in whats {
+                let nseeds = match (t, what) {
+                    (Tier::Quick, _) => 1,
+                    (_, What::Records) => 3,
+                    _ => 6,
+                };
+                if seed > nseeds {
+                    continue;
+                }
+                let mut values = ladder(top(what, t));
+                if matches!(what, What::Offset | What::Start) {
+                    values.extend_from_slice(BIG);
+                }
+                if seed == 1 && !matches!(what, What::Offset | What::Cut) {
+                    values.splice(0..0, [1u64, 2, 63, 64, 65]);
+                }
+                for &n in &values {
+                    let reps = match (t, what) {
+                        (Tier::Thorough, _) if n <= 70_001 => 4,
+                        (_, What::Records) | (_, What::FileHist) => 1,
+                        _ => 2,
+                    };
+                    for _ in 0..reps {
+                        k += 1;
+                        let src = match what {
+                            What::Offset | What::Start => [Src::Virtual, Src::VirtualChunked][k % 2],
+                            What::FileHist => Src::File,
+                            What::Records => [Src::Cursor, Src::Chunked, Src::File][k % 3],
+                            _ => [Src::Virtual, Src::Cursor, Src::Chunked, Src::File, Src::VirtualChunked][k % 5],
+                        };
+                        if what == What::Cut && n < 200 {
+                            continue;
+                        }
+                        out.push(LCase { what, n, aux: k / 5, seed: seed.wrapping_mul(0x9e37_79b9) ^ (k as u64) << 9, crlf: (k / 2) % 2 == 1, final_newline: k % 7 != 3, src });
+                    }
+                }
+            }
+        }
+        out.sort_by_key(|c| c.n);
+        out
+    }
+
+    pub fn enum_shape(t: Tier) -> Box<dyn Iterator<Item = LCase>> {
+        Box::new(grid(&[What::Width, What::Len], t).into_iter())
+    }
+    pub fn enum_fetch(t: Tier) -> Box<dyn Iterator<Item = LCase>> {
+        Box::new(grid(&[What::Fetch, What::Jumps, What::Cut], t).into_iter())
+    }
+    pub fn enum_index(t: Tier) -> Box<dyn Iterator<Item = LCase>> {
+        Box::new(grid(&[What::Records, What::Offset, What::Start], t).into_iter())
+    }
+    pub fn enum_files(t: Tier) -> Box<dyn Iterator<Item = LCase>> {
+        Box::new(grid(&[What::FileHist], t).into_iter())
+    }
+
+    pub fn reach(whats: &[What], extra: &[&'static str]) -> &'static [&'static str] {
+        let mut v: Vec<&'static str> = Vec::new();
+        for &w in whats {
+            for &c in CENTRES {
+                if c <= top(w, Tier::Quick) {
+                    v.push(band_label(what_name(w), c));
+                }
+            }
+            if matches!(w, What::Offset | What::Start) {
+                v.push(band_label(what_name(w), 1 << 32));
+            }
+        }
+        v.extend_from_slice(extra);
+        Box::leak(v.into_boxed_slice())
+    }
+
+    pub fn strat_random(_t: Tier) -> BoxedStrategy<LCase> {
+        let what = proptest::sample::select(vec![What::Width, What::Len, What::Fetch, What::Records, What::Offset, What::Start, What::Jumps, What::FileHist, What::Cut]);
+        let n = prop_oneof![
+            3 => (proptest::sample::select(vec![256u64, 512, 1024, 4096, 8192, 16384, 32768, 65536, 70_000, 131_072]), 0u64..=6).prop_map(|(c, d)| c + d - 3),
+            2 => (8u32..=17, any::<u16>()).prop_map(|(bits, r)| (1u64 << bits) + (r as u64 * ((1u64 << bits) - 1) >> 16)),
+            1 => 30u64..=300,
+        ];
+        let src = proptest::sample::select(vec![Src::Virtual, Src::VirtualChunked, Src::Cursor, Src::Chunked, Src::File]);
+        (what, n, 0usize..1000, any::<u64>(), any::<bool>(), proptest::bool::weighted(0.8), src, proptest::sample::select(BIG.to_vec()), proptest::bool::weighted(0.15))
+            .prop_map(|(what, n, aux, seed, crlf, final_newline, src, big, use_big)| {
+                let mut n = if matches!(what, What::Records | What::FileHist) { n.min(70_003) } else { n };
+                let mut src = src;
+                if matches!(what, What::Offset | What::Start) {
+                    if use_big {
+                        n = big;
+                    }
+                    if !matches!(src, Src::Virtual | Src::VirtualChunked) && n > (1 << 20) {
+                        src = Src::Virtual;
+                    }
+                }
+                if what == What::Cut {
+                    n = n.max(200);
+                }
+                LCase { what, n, aux, seed, crlf, final_newline, src }
+            })
+            .boxed()
+    }
+}
+
 pub fn property() -> Property {
     Property {
         id: "C12",
-        rule: "1-4 records (unique names, optional header description; length 1..20000 with a band above 8 KiB; per-record line width 1..700; LF or CRLF; last terminator optionally missing; symbols a fixed pseudo-random function of (seed, position) over 20 letters so that shifted data is visible) are laid out by the harness, which also writes the matching .fai (LF/CRLF, samtools-style entry for single-line records optional). One IndexedReader (new or Index::new+with_index) over a chunked Read+Seek double (cyclic schedule of 1..3 / 1..50 / 1..1000 / around 8192 / unfragmented read sizes) executes a history of 1-15 operations (groups of fetch+read, fetch+partial iterator+read, fetch+fetch+read, misuse, lone reads): fetch / fetch_by_rid with a valid interval (uniform or short and near line ends), fetch_all(_by_rid), read into a reused buffer, read_iter consumed completely or partly, and the misuse operations unknown name, record number out of range, stop > length, start > stop, read before any fetch. Oracle = the generated sequences: every successful read/iterator equals sequence[start..stop] whatever happened before; misuse must be reported as Err (by the fetch or by the read that follows). The same history then runs on the file cut at a random offset behind the same index: Err is required when a requested base lies at or behind the cut, otherwise Err or exactly the slice; bytes delivered by the iterator before an error must be a prefix of the slice. Iterators are capped at interval length + 8 items. Non-trivial = some read on the intact file crossed >= 2 line ends, started inside a line and had a read() boundary inside the fetched bytes. Distinct = distinct serialised case.",
+        rule: "1-4 records (unique names, optional header description; length 1..20000 with a band above 8 KiB; per-record line width 1..700; LF or CRLF; last terminator optionally missing; symbols a fixed pseudo-random function of (seed, position) over 20 letters so that shifted data is visible) are laid out by the harness, which also writes the matching .fai (LF/CRLF, samtools-style entry for single-line records optional). One IndexedReader (new or Index::new+with_index) over a chunked Read+Seek double (cyclic schedule of 1..3 / 1..50 / 1..1000 / around 8192 / unfragmented read sizes) executes a history of 1-15 operations (groups of fetch+read, fetch+partial iterator+read, fetch+fetch+read, misuse, lone reads): fetch / fetch_by_rid with a valid interval (uniform or short and near line ends), fetch_all(_by_rid), read into a reused buffer, read_iter consumed completely or partly, and the misuse operations unknown name, record number out of range, stop > length, start > stop, read before any fetch. Oracle = the generated sequences: every successful read/iterator equals sequence[start..stop] whatever happened before; misuse must be reported as Err (by the fetch or by the read that follows). The same history then runs on the file cut at a random offset behind the same index: Err is required when a requested base lies at or behind the cut, otherwise Err or exactly the slice; bytes delivered by the iterator before an error must be a prefix of the slice. Iterators are capped at interval length + 8 items. Non-trivial = some read on the intact file crossed >= 2 line ends, started inside a line and had a read() boundary inside the fetched bytes. large-*: parameter-only cases push ONE size parameter across the ladder 255..257 ... 2^20+-1: line width, sequence length, fetch length (within one line and across lines), number of index records (fetch by name and by rid around every ladder value, Index::sequences), record offset and start position (also 2^31+-1, 2^32+-1, 2^33, 2^40 through a file that is computed from the offset), distance of consecutive fetches on one reader (forward/backward), histories on one path (IndexedReader::from_file with the .fai on disk, Index::from_file, Index::with_fasta_file, with_index(File); long, short, medium, tiny generation), cut offset. Sources: computed file (unfragmented or read() of at most n bytes), Cursor, chunked double, file on disk. Per case ~100 queries in seeded shuffled order on ONE reader: short intervals at 0/1/len-1/len, around every ladder value and line boundary, one long interval per ladder value (sum <= 5 MiB), whole record; each through read(), read_iter() to the end, or a partly consumed iterator followed by read()/read_iter(); then the misuse block (rid = number of records, unknown name, stop > len, start > stop) and one more valid fetch. Oracle = base(seed, position) recomputed per query. Non-trivial (large) = scaled value >= 255. Distinct = distinct serialised case.",
         assumptions: &[
             "record names are unique, non-empty and without blanks (names starting with a double quote are generated: the .fai is not a quoted CSV dialect)",
             "empty records are excluded (line width >= 1 is required)",
@@ -769,6 +1613,43 @@ pub fn property() -> Property {
                 "read without fetch",
                 "cut file: requested base behind the cut",
                 "cut file: interval before the cut read correctly",
+            ],
+            watch: true,
+        }),
+        Box::new(ExhSub {
+            name: "C12/large-shape",
+            enumerate: large::enum_shape,
+            check: large::check_large,
+            must_reach: large::reach(&[large::What::Width, large::What::Len], &["fetch of more than 512 bases within one line", "fetch longer than 64 KiB", "source: computed file", "source: Cursor (unfragmented)", "source: chunked double", "source: file on disk (IndexedReader::from_file)", "CRLF", "last terminator missing", "partially consumed iterator, then another read", "single-line record"]),
+        }),
+        Box::new(ExhSub {
+            name: "C12/large-fetch",
+            enumerate: large::enum_fetch,
+            check: large::check_large,
+            must_reach: large::reach(&[large::What::Fetch, large::What::Jumps, large::What::Cut], &["forward and backward jumps on one reader", "cut file: requested base behind the cut", "cut file: interval before the cut read correctly", "fetch of more than 512 bases within one line", "iterator consumed completely"]),
+        }),
+        Box::new(ExhSub {
+            name: "C12/large-index",
+            enumerate: large::enum_index,
+            check: large::check_large,
+            must_reach: large::reach(&[large::What::Records, large::What::Offset, large::What::Start], &["source: computed file, read() of at most n bytes", "source: file on disk (IndexedReader::from_file)"]),
+        }),
+        Box::new(ExhSub {
+            name: "C12/large-files",
+            enumerate: large::enum_files,
+            check: large::check_large,
+            must_reach: large::reach(&[large::What::FileHist], &["file history: long, short, medium, tiny on one path", "Index::from_file, Index::with_fasta_file, with_index(File)"]),
+        }),
+        Box::new(PropSub {
+            name: "C12/large-random",
+            quick: 3_200,
+            thorough: 64_000,
+            shards_quick: 8,
+            shards_thorough: 16,
+            strat: large::strat_random,
+            check: large::check_large,
+            must_reach: &[
+                "scaled: line width", "scaled: sequence length", "scaled: fetch length", "scaled: number of index records", "scaled: record offset", "scaled: start position", "scaled: jump between consecutive fetches", "scaled: file history: length of the long sequence", "scaled: cut offset",
             ],
             watch: true,
         })],
